@@ -166,7 +166,7 @@ impl World for C42 {
     }
     fn budget(&self, tier: Tier) -> (u64, u64) {
         match tier {
-            Tier::Quick => (200, 50),
+            Tier::Quick => (600, 50),
             Tier::Thorough => (8_000, 900),
         }
     }
